@@ -62,6 +62,24 @@ def sprintName (s : Bytes) : Bytes := sprintNameLoop (s.length + 1) [] s []
 
 def upperAscii (s : Bytes) : Bytes := s.map (fun b => if 97 ≤ b.toNat ∧ b.toNat ≤ 122 then b - 32 else b)
 
+/-- the body of `sprintTxtOctet`: every escape decoded and the octet spelled again as in a character-string, except that
+    `\.` stays as it is; a dangling backslash is dropped -/
+def octetRe (s : Bytes) : Bytes :=
+  match s with
+  | [] => []
+  | c :: rest =>
+    if c = 92 then
+      if isDDD rest then txtEscapeByte (dddToByte rest) ++ octetRe (rest.drop 3)
+      else match rest with
+        | [] => []
+        | d :: rest' => if d = 46 then 92 :: 46 :: octetRe rest' else txtEscapeByte d ++ octetRe rest'
+    else txtEscapeByte c ++ octetRe rest
+termination_by s.length
+decreasing_by all_goals simp_wf <;> omega
+
+/-- `sprintTxtOctet` (types.go) -/
+def sprintTxtOctet (s : Bytes) : Bytes := [34] ++ octetRe s ++ [34]
+
 /-- one leaf of a `String()` expression -/
 def printStep : TStep → List TVal → Option (Bytes × List TVal)
   | .uint _, .n v :: vs => some (itoa v, vs)
@@ -70,6 +88,7 @@ def printStep : TStep → List TVal → Option (Bytes × List TVal)
   | .txt, .ss strs :: vs => some (sprintTxt strs, vs)
   | .txtPair, .s a :: .s b :: vs => some (sprintTxt [a, b], vs)
   | .txtFirst, .s a :: vs => some (sprintTxt [a], vs)
+  | .octet, .s a :: vs => some (sprintTxtOctet a, vs)
   | .blank, vs => some ([32], vs)
   | .slurp, vs => some ([], vs)
   | _, _ => none
@@ -134,6 +153,22 @@ def pairOfChunks (chunks : List Bytes) : Bytes × Bytes :=
     if out.length > 1 then (out.headD [], joinBlank out.tail) else (c, [])
   | c :: rest => (c, joinBlank rest)
 
+/-- the loop of `endingToOctetString`: at most one string token, blanks only outside quotes, quotes in pairs -/
+def octetTokens : List Tok → (s : Bytes) → (seen quote : Bool) → Option Bytes
+  | [], s, seen, quote =>
+    if quote || !seen then none else if (escOffset s (s.length + 1)).isSome then some s else none
+  | t :: ts, s, seen, quote =>
+    if t.value = zNewline then
+      (if quote || !seen then none else if (escOffset s (s.length + 1)).isSome then some s else none)
+    else if t.err then none
+    else if t.value = zString then (if seen then none else octetTokens ts t.token true quote)
+    else if t.value = zBlank then (if quote then none else octetTokens ts s seen quote)
+    else if t.value = zQuote then octetTokens ts s (seen || quote) (!quote)
+    else none
+
+/-- `endingToOctetString` -/
+def endingToOctet (ts : List Tok) : Option Bytes := octetTokens ts [] false false
+
 /-- the token a `c.Next()` delivers: the head of the list, or the end-of-input token -/
 def headTok : List Tok → Tok
   | [] => { value := zEOF }
@@ -178,6 +213,10 @@ def parsePlan (origin : Bytes) : List TStep → List Tok → List TVal → Optio
   | .txt :: _, ts, acc => (TxtParse.endingToTxtSlice ts).map (fun ss => acc ++ [.ss ss])
   | .txtPair :: _, ts, acc => (TxtParse.endingToTxtSlice ts).map (fun ss => acc ++ [.s (pairOfChunks ss).1, .s (pairOfChunks ss).2])
   | .txtFirst :: _, ts, acc => (TxtParse.endingToTxtSlice ts).map (fun ss => acc ++ [.s (ss.headD [])])
+  | .octet :: _, ts, acc => (endingToOctet ts).map (fun s => acc ++ [.s s])
+  | .tokStr :: rest, ts, acc =>
+    let l := headTok ts
+    if l.err ∨ l.value ≠ zString then none else parsePlan origin rest ts.tail (acc ++ [.s l.token])
   | .slurp :: _, ts, acc => if slurpRemainder ts then some acc else none
   | .other :: _, _, _ => none
 
